@@ -231,6 +231,12 @@ def is_const(e: ast.AST) -> bool:
 
 
 # ------------------------------------------------------------------------------------------ source-to-source normal form
+def _const_ast(v: T.Any) -> ast.AST:
+    if isinstance(v, int) and not isinstance(v, bool) and v < 0:
+        return ast.UnaryOp(op=ast.USub(), operand=ast.Constant(-v))
+    return ast.Constant(v)
+
+
 class _NormalForm(ast.NodeTransformer):
     """One normal form per function, applied before any table is extracted (catalogue kinds A1, B2, C3, C6):
     * module-level literal constants are inlined (`_PREFIX = 'cfg('`), `len('lit')` is folded;
@@ -240,6 +246,7 @@ class _NormalForm(ast.NodeTransformer):
 
     def __init__(self, mod: Module, fn: ast.FunctionDef, cls: T.Optional[str]):
         self.mod, self.cls = mod, cls
+        self.ctx_repo = getattr(mod, 'repo', None)
         self.depth = 0
         self.root = fn
         self.locals = {n.id for n in ast.walk(fn) if isinstance(n, ast.Name) and isinstance(n.ctx, (ast.Store, ast.Del))} | \
@@ -252,7 +259,47 @@ class _NormalForm(ast.NodeTransformer):
                         for t in (st.targets if isinstance(st, ast.Assign) else [st.target]) for x in ast.walk(t) if isinstance(x, ast.Name) and x.id == n.id)
             if ndefs == 1 and isinstance(v, (ast.Constant, ast.Tuple, ast.Set)) and is_const(v):
                 return ast.copy_location(copy.deepcopy(v), n)
+            if ndefs == 1:
+                # a named number / string (`_PRERELEASE = -1`, `_MARKER_IDX = _CORE_LEN`, `_A = _B + 1`): folded through the module's constants
+                try:
+                    val = fold_expr(self.ctx_repo, self.mod, v) if self.ctx_repo is not None else None
+                except Undecided:
+                    val = None
+                if isinstance(val, (int, str)) and not isinstance(val, bool):
+                    return ast.copy_location(_const_ast(val), n)
         return n
+
+    def visit_BinOp(self, b: ast.BinOp) -> ast.AST:
+        self.generic_visit(b)
+        if is_const(b.left) and is_const(b.right) and isinstance(b.op, (ast.Add, ast.Sub, ast.Mult)):
+            l, r = const_of(b.left), const_of(b.right)
+            if isinstance(l, int) and isinstance(r, int) and not isinstance(l, bool) and not isinstance(r, bool):
+                return ast.copy_location(_const_ast(l + r if isinstance(b.op, ast.Add) else l - r if isinstance(b.op, ast.Sub) else l * r), b)
+        return b
+
+    def visit_Compare(self, c: ast.Compare) -> ast.AST:
+        """Integer comparisons between len(x) and a constant in one spelling: `len(x) < K` (possibly negated)."""
+        self.generic_visit(c)
+        if len(c.ops) != 1:
+            return c
+        a, b, op = c.left, c.comparators[0], c.ops[0]
+        is_len = lambda e: isinstance(e, ast.Call) and norm(e.func) == 'len'     # noqa: E731
+        is_int = lambda e: is_const(e) and isinstance(const_of(e), int) and not isinstance(const_of(e), bool)     # noqa: E731
+        if is_int(a) and is_len(b):     # mirror: K op len  ->  len op' K
+            a, b = b, a
+            op = {ast.Lt: ast.Gt, ast.Gt: ast.Lt, ast.LtE: ast.GtE, ast.GtE: ast.LtE}.get(type(op), type(op))()
+        if not (is_len(a) and is_int(b)):
+            return c
+        k = const_of(b)
+        lt = lambda kk: ast.Compare(left=a, ops=[ast.Lt()], comparators=[_const_ast(kk)])     # noqa: E731
+        new: T.Optional[ast.AST] = None
+        if isinstance(op, ast.LtE):
+            new = lt(k + 1)
+        elif isinstance(op, ast.Gt):
+            new = ast.UnaryOp(op=ast.Not(), operand=lt(k + 1))
+        elif isinstance(op, ast.GtE):
+            new = ast.UnaryOp(op=ast.Not(), operand=lt(k))
+        return ast.copy_location(new, c) if new is not None else c
 
     def visit_Call(self, c: ast.Call) -> ast.AST:
         self.generic_visit(c)
@@ -391,6 +438,73 @@ class _NormalForm(ast.NodeTransformer):
             return None
         return [ast.fix_missing_locations(_Rename(names).visit(x)) for x in new]
 
+    def _inline_closure(self, st: ast.stmt) -> T.Optional[T.List[ast.stmt]]:
+        """`f()` / `x = f()` where f is a parameterless straight-line closure nested in this function (typically with `nonlocal`): its
+        statements in place, `return E` becoming `x = E`.  The closure shares the variables of the function, so nothing is renamed."""
+        if isinstance(st, ast.Expr) and isinstance(st.value, ast.Call):
+            call, tgt = st.value, None
+        elif isinstance(st, ast.Assign) and len(st.targets) == 1 and isinstance(st.targets[0], ast.Name) and isinstance(st.value, ast.Call):
+            call, tgt = st.value, st.targets[0].id
+        else:
+            return None
+        if not isinstance(call.func, ast.Name) or call.args or call.keywords:
+            return None
+        nested = [x for x in ast.walk(self.root) if isinstance(x, ast.FunctionDef) and x is not self.root and x.name == call.func.id]
+        if len(nested) != 1 or nested[0].args.args or nested[0].args.kwonlyargs or nested[0].args.vararg or nested[0].args.kwarg:
+            return None
+        body = [x for x in nested[0].body if not isinstance(x, (ast.Nonlocal, ast.Global)) and not (isinstance(x, ast.Expr) and isinstance(x.value, ast.Constant))]
+        if any(isinstance(x, (ast.If, ast.For, ast.While, ast.Try, ast.With, ast.FunctionDef)) for x in body) or any(isinstance(x, ast.Return) for x in body[:-1]):
+            return None
+        declared = {n0 for x in nested[0].body if isinstance(x, ast.Nonlocal) for n0 in x.names}
+        own = {n.id for x in body for n in ast.walk(x) if isinstance(n, ast.Name) and isinstance(n.ctx, ast.Store)} - declared
+        if own & (self.locals - {n.id for x in nested[0].body for n in ast.walk(x) if isinstance(n, ast.Name)}):
+            return None
+        out = [copy.deepcopy(x) for x in body if not isinstance(x, ast.Return)]
+        ret = body[-1] if body and isinstance(body[-1], ast.Return) else None
+        if tgt is not None:
+            out.append(ast.copy_location(ast.Assign(targets=[ast.Name(id=tgt, ctx=ast.Store())], value=copy.deepcopy(ret.value) if ret is not None and ret.value is not None else ast.Constant(None)), st))
+        return [ast.fix_missing_locations(ast.copy_location(x, st)) for x in out] or [ast.copy_location(ast.Pass(), st)]
+
+    def _dispatch_methods(self, st: ast.stmt) -> T.Optional[T.List[ast.stmt]]:
+        """`return p.M(args)` where p is a parameter and M is defined by several classes of this module (polymorphic dispatch): the isinstance
+        chain it stands for, most derived classes first, each arm the method body with self bound to p (tail position)."""
+        if not (isinstance(st, ast.Return) and isinstance(st.value, ast.Call) and isinstance(st.value.func, ast.Attribute) and isinstance(st.value.func.value, ast.Name)):
+            return None
+        p, m = st.value.func.value.id, st.value.func.attr
+        if p not in {a.arg for a in self.root.args.args} or self.depth > 0:
+            return None
+        owners = [(q, k) for q, k in self.mod.classes().items() if any(isinstance(x, ast.FunctionDef) and x.name == m for x in k.body)]
+        if len(owners) < 2:
+            return None
+
+        def depth(k: ast.ClassDef) -> int:
+            d, cur = 0, k
+            while cur.bases and self.mod.has_cls(attr_chain(cur.bases[0]) or ''):
+                cur = self.mod.cls(attr_chain(cur.bases[0]) or '')
+                d += 1
+                if d > 10:
+                    break
+            return d
+        chain: T.List[ast.stmt] = []
+        for q, k in sorted(owners, key=lambda qk: depth(qk[1])):      # least derived first -> ends up innermost (last tested)
+            meth = [x for x in k.body if isinstance(x, ast.FunctionDef) and x.name == m][0]
+            if meth.decorator_list or any(isinstance(n, (ast.Yield, ast.YieldFrom, ast.FunctionDef, ast.Lambda)) for x in meth.body for n in ast.walk(x)):
+                return None
+            try:
+                bound = bind_call(st.value, meth)
+            except Undecided:
+                return None
+            if not all(isinstance(a, ast.Name) for a in bound.values()):
+                return None
+            names: T.Dict[str, ast.AST] = dict(bound)
+            names[meth.args.args[0].arg] = ast.Name(id=p, ctx=ast.Load())
+            body = [_Rename(names).visit(copy.deepcopy(x)) for x in meth.body if not (isinstance(x, ast.Expr) and isinstance(x.value, ast.Constant))]
+            if not body or not isinstance(body[-1], (ast.Return, ast.Raise)):
+                body.append(ast.Return(value=ast.Constant(None)))
+            test = ast.Call(func=ast.Name(id='isinstance', ctx=ast.Load()), args=[ast.Name(id=p, ctx=ast.Load()), ast.Name(id=q, ctx=ast.Load())], keywords=[])
+            chain = [ast.If(test=test, body=body, orelse=chain)]
+        return [ast.fix_missing_locations(ast.copy_location(x, st)) for x in chain]
+
     def _inline_tail_call(self, st: ast.stmt) -> T.Optional[T.List[ast.stmt]]:
         """`return H(args)` with H a module-level function: H's body in place (its returns are the caller's returns).  The caller's locals are
         dead after a tail call, so H's locals need no renaming; an argument that is not a plain name is bound to a fresh local first."""
@@ -432,7 +546,7 @@ class _NormalForm(ast.NodeTransformer):
     def _block(self, body: T.List[ast.stmt]) -> T.List[ast.stmt]:
         expanded: T.List[ast.stmt] = []
         for st in body:
-            rep_ = self._unroll(st) if isinstance(st, ast.For) else (self._inline_tail_call(st) or self._inline_returns(st))
+            rep_ = self._unroll(st) if isinstance(st, ast.For) else (self._inline_closure(st) or self._dispatch_methods(st) or self._inline_tail_call(st) or self._inline_returns(st))
             if rep_ is not None:
                 self.depth += 1
                 sub = _NormalForm(self.mod, self.root, self.cls)     # normalise the inserted code as well
@@ -909,15 +1023,36 @@ def r1_cargo_parse(ctx: RuleCtx) -> None:
     loop = loops[0]
     ok_iter = isinstance(loop.iter, ast.Call) and norm(loop.iter.func) == 'split' and [norm(a) for a in loop.iter.args] == [param] \
         and isinstance(loop.target, ast.Tuple) and len(loop.target.elts) == 2 and all(isinstance(x, ast.Name) for x in loop.target.elts)
-    if not ok_iter:
+    pre = fn.body[:fn.body.index(loop)]
+    fission: T.Optional[str] = None
+    fission_def = ''
+    if not ok_iter and isinstance(loop.iter, ast.Name) and isinstance(loop.target, ast.Tuple) and len(loop.target.elts) == 2 and all(isinstance(x, ast.Name) for x in loop.target.elts):
+        # loop fission: reqs = [(op, SemVer(ver)) for op, ver in split(text)] first, then `for op, semver in reqs:` - the second target IS SemVer(ver)
+        ld = [st.value for st in pre if isinstance(st, (ast.Assign, ast.AnnAssign)) and norm(st.targets[0] if isinstance(st, ast.Assign) else st.target) == loop.iter.id]
+        if len(ld) == 1 and isinstance(ld[0], ast.ListComp) and len(ld[0].generators) == 1 and not ld[0].generators[0].ifs:
+            g0 = ld[0].generators[0]
+            if isinstance(g0.iter, ast.Call) and norm(g0.iter.func) == 'split' and [norm(a) for a in g0.iter.args] == [param] and isinstance(g0.target, ast.Tuple) \
+                    and len(g0.target.elts) == 2 and norm(ld[0].elt) == f'({norm(g0.target.elts[0])}, SemVer({norm(g0.target.elts[1])}))':
+                fission = loop.iter.id
+                fission_def = norm(ld[0])
+    if not ok_iter and fission is None:
         raise Undecided(f'cargo_parse: the loop is not `for op, ver in split({param})`')
     opvar, vervar = (x.id for x in loop.target.elts)     # type: ignore[attr-defined]
-    pre = fn.body[:fn.body.index(loop)]
     post = fn.body[fn.body.index(loop) + 1:]
     env0, _ = propagate([s for s in pre if eff(s)])
     outs = [k for k, v in env0.items() if isinstance(v, ast.List) and not v.elts]
     accs = [k for k, v in env0.items() if isinstance(v, ast.Constant) and v.value is False]
     derived_flag = False
+    all_reqs_flag = False
+    if fission is not None and len(outs) == 1 and not accs:
+        # flag = any(v.has_prerelease for _, v in reqs): the disjunction over every requirement version, computed before the ladder
+        for k0, v0 in env0.items():
+            if isinstance(v0, ast.Call) and norm(v0.func) == 'any' and len(v0.args) == 1 and isinstance(v0.args[0], (ast.GeneratorExp, ast.ListComp)) and len(v0.args[0].generators) == 1:
+                g1 = v0.args[0].generators[0]
+                if norm(g1.iter) in (fission, fission_def) and isinstance(g1.target, ast.Tuple) and len(g1.target.elts) == 2 and not g1.ifs \
+                        and norm(v0.args[0].elt) == f'{norm(g1.target.elts[1])}.has_prerelease':
+                    accs = [k0]
+                    all_reqs_flag = True
     if len(outs) == 1 and not accs:
         # the flag may be computed after the loop from the appended bounds: flag = any(b.has_prerelease for _, b in out)
         for st in post:
@@ -934,8 +1069,8 @@ def r1_cargo_parse(ctx: RuleCtx) -> None:
     rw = _SearchLoops()
     body = inline_list_builders(mod, [copy.deepcopy(s) for s in loop.body], OUT)     # an extracted ladder is read in place
     body = [rw.visit(s) for s in body]
-    semdef = f'SemVer({vervar})'
-    sem0 = [st.targets[0].id for st in loop.body if isinstance(st, ast.Assign) and norm(st.value) == semdef and isinstance(st.targets[0], ast.Name)]
+    semdef = f'SemVer({vervar})' if fission is None else vervar
+    sem0 = [st.targets[0].id for st in loop.body if isinstance(st, ast.Assign) and norm(st.value) == semdef and isinstance(st.targets[0], ast.Name)] if fission is None else [vervar]
     # tests are read with locals resolved by reaching definition (`is_pre = semver.has_prerelease; if is_pre:`); the SemVer local, the list and the flag stay names
     tab = resolve_table(tables.extract(fn, body=body, effects=eff, inline=False, name='cargo_parse:loop'), opaque=sem0 + [OUT, ACC])
     # classify atoms: tests of the operator are decided per operator class (== constant, membership in a folded constant set / table)
@@ -959,8 +1094,8 @@ def r1_cargo_parse(ctx: RuleCtx) -> None:
             if not isinstance(keys, (set, frozenset, tuple, list)):
                 raise Undecided(f'cargo_parse: operator test {a!r} is not a membership in a constant collection')
             op_atoms[a] = (lambda ks: (lambda o: o in ks))(set(keys))
-    semvar: T.Optional[str] = None
-    for st in loop.body:
+    semvar: T.Optional[str] = vervar if fission is not None else None
+    for st in ([] if fission is not None else loop.body):
         if isinstance(st, ast.Assign) and norm(st.value) == semdef and isinstance(st.targets[0], ast.Name):
             semvar = st.targets[0].id
     if semvar is None:
@@ -1071,7 +1206,9 @@ def r1_cargo_parse(ctx: RuleCtx) -> None:
             # the pre-release flag is sticky: flag = flag or V.has_prerelease on every row
             acc = env.get(ACC)
             acc_s = norm(_Replace(semdef, 'V').visit(copy.deepcopy(acc))) if acc is not None else None
-            if derived_flag:
+            if all_reqs_flag:
+                acc_ok = acc is None     # computed once over all requirement versions before the ladder; the rows must not touch it
+            elif derived_flag:
                 # the flag only sees what the row appends: the version itself must be among the bounds (next_ver drops the pre-release)
                 acc_ok = any(b == 'V' for _c, b in got)
                 acc_s = f'any(has_prerelease of {[b for _c, b in got]})'
